@@ -8,4 +8,12 @@ WaitsR1 == [i \in ItemsR1 |-> NULL]
 ItemsR2 == {"a", "b", "c"}
 ProgR2 == ("c1" :> <<"a", "b", "c">>)
 WaitsR2 == ("a" :> "c" @@ "b" :> "c" @@ "c" :> NULL)
+\* R3 (small): one client, two items, the first blocks on the second; budget 1
+ItemsR3 == {"a", "c"}
+ProgR3 == ("c1" :> <<"a", "c">>)
+WaitsR3 == ("a" :> "c" @@ "c" :> NULL)
+\* R4 (small): two clients, one item each
+ItemsR4 == {"a", "b"}
+ProgR4 == ("c1" :> <<"a">> @@ "c2" :> <<"b">>)
+WaitsR4 == [i \in ItemsR4 |-> NULL]
 =============================================================================
